@@ -117,14 +117,14 @@ let install register =
   register "purem" (function _ -> "OK SAME");
   (* no panic for any slice length (lzma1_run_exact); the run ends with the sink's error (kind Other) *)
   register "huge1" (function _ -> "ERR 6");
-  register "lzexp" (function o :: expected :: _seed :: ops :: ds :: _ ->
+  let lzexp with_header = (function o :: expected :: _seed :: ops :: ds :: _ ->
       let (dict, nice, normal, bt4) = parse_opts o in
       let expected = if expected = "none" then None else Some (zs expected) in
       (match Model.l1_replay normal bt4 dict nice None expected (parse_ops ops (-1) false) (parse_decisions ds) with
        | Model.Ok ((evs, res), left) ->
          let finished = List.exists (fun e -> e = Model.EvEnd) evs in
          let rs = List.map (function Model.RWrote n -> "W" ^ sz n | Model.RRej c -> "E" ^ sz c | Model.RDone -> "D") res in
-         let hdr = if finished then hex (Model.le_bytes (z 8) (match expected with Some e -> e | None -> zs "18446744073709551615")) else "-" in
+         let hdr = if finished && with_header then hex (Model.le_bytes (z 8) (match expected with Some e -> e | None -> zs "18446744073709551615")) else "-" in
          let acc = List.fold_left (fun s e -> match e with Model.EvFill (_, u) -> Big_int_Z.add_big_int s u | _ -> s) (z 0) evs in
          let sym = List.fold_left (fun s e -> match e with Model.EvSym (l, _) -> Big_int_Z.add_big_int s l | _ -> s) (z 0) evs in
          let h = ref 0xcbf29ce484222325L in
@@ -136,4 +136,6 @@ let install register =
        | Model.Err c -> "ERR " ^ sz c
        | Model.Panic _ -> "PANIC"
        | Model.Fuel -> "FUEL")
-    | _ -> "BADARGS")
+    | _ -> "BADARGS") in
+  register "lzexp" (lzexp true);
+  register "lzexpn" (lzexp false)
